@@ -1103,6 +1103,21 @@ DEEP_EQ = ["let obs = [];\nlet a = [1]; let b = [2]; let i = 0;\nwhile i < 70 { 
            "let obs = [];\nlet a = [1]; let b = [1]; let i = 0;\nwhile i < 30 { a = [a]; b = [b]; i = i + 1; }\npush(obs, a == b);\n0\n"]
 
 
+# spellings that the fragment recogniser maps to the same core terms as the canonical ones (else-less `if`, `else if` chains, empty
+# blocks and arm bodies), also spread over several lines with the failing operand on a line of its own: the oracle bridges
+# (Props/RefCore …) speak about the canonical spelling only, these relate the others to the oracle by the run
+CORE_SPELLINGS = [
+    "let c = 1;\nlet r = if c { 1 };\nlet s = if !c { 1 };\nr\n",
+    "let a = 0;\nlet b = 1;\nlet r = if a { 1 } else if b { 2 } else { 3 };\nlet q = if a { 1 } else if a { 2 } else { 3 };\nr + q\n",
+    "let c = 1;\nlet r = if c { } else { };\nlet q = if !c { } else { 5 };\nq\n",
+    "let x = 1;\nlet r = match x { 1 => { }, _ => 2 };\nlet q = match x { 2 => 1, _ => { } };\nr\n",
+    "let c = 0;\nlet r = if c {\n  1\n} else if c + 1 {\n  2 +\n  (1 / 0)\n} else {\n  3\n};\nr\n",
+    "let c = 1;\nlet r = if c\n{\n  null -\n  1\n};\nr\n",
+    "let x = 2;\nmatch x {\n  1 => 1,\n  2 => {\n    'c' *\n    2\n  },\n  _ => 3\n}\n",
+    "let c = 1;\nif c { c = c + 1; }\nif !c { c = 0; } else if c > 1 { c = c * 10; }\nc\n",
+]
+
+
 def alias_programs(rng, n):
     """arrays and maps are shared by reference, `+` builds a NEW array whatever its operands are: mutate one side, observe both"""
     empties = ["[]", "e()", "rest([1])", "([] + [])", "z"]
@@ -1150,7 +1165,7 @@ def cases(ctx):
     out += [Case(l, ("vm-" + tags[k],), extra={"src": srcs[k]}) for l, k in zip(vl, vsel)]
     # the core fragment: the functional compiler model must equal the real compiler byte for byte,
     # its machine the real VM, and both the reference evaluation (theorem compile_correct)
-    csrcs = [core_program(ctx.rng, typed=(k % 2 == 0)) for k in range(ctx.scale(3000, 150000))]
+    csrcs = [core_program(ctx.rng, typed=(k % 2 == 0)) for k in range(ctx.scale(3000, 150000))] + CORE_SPELLINGS
     cl = lang_lines(ctx, csrcs, op="core")
     out += [Case(l, ("core",), extra={"src": s}) for l, s in zip(cl, csrcs)]
     # the layer with first-order functions (theorem compile_sound_functions): main code, every function constant (code,
